@@ -2725,11 +2725,13 @@ impl LineBuf {
 				let mut ch_buf = [0u8;4];
 				let ch_str = ch.encode_utf8(&mut ch_buf);
 				let mut pos = self.cursor;
+				// f F t T stay on the cursor line
+				let (line_start,line_end) = self.this_line();
 				for _ in 0..count {
 					match direction {
 						Direction::Forward => {
 							let after = pos.ret_add(1);
-							let mut indices_iter = after..pos.max;
+							let mut indices_iter = after..line_end;
 
 							let Some(ch_pos) = indices_iter.find(|i| {
 								self.grapheme_at(*i) == Some(ch_str)
@@ -2740,7 +2742,7 @@ impl LineBuf {
 						}
 						Direction::Backward => {
 							// Everything before the cursor, the character next to it included
-							let mut indices_iter = (0..pos.get()).rev();
+							let mut indices_iter = (line_start..pos.get()).rev();
 
 							let Some(ch_pos) = indices_iter.find(|i| {
 								self.grapheme_at(*i) == Some(ch_str)
